@@ -53,6 +53,15 @@ def field_lists(tier, cleaned):
                 yield [c, d]
                 if tier != 'thorough':
                     yield [d, c]
+    pairs = [['npstartA', 'npoutA'], ['npstartB', 'npoutB'], ['npstartA', 'npoutA', 'npstartB', 'npoutB']]
+    if cleaned:
+        pairs += [['npstartA_merge', 'npoutA_merge'], ['npstartB_merge', 'npoutB_merge'], ['npstartA', 'npoutA', 'npstartA_merge'],
+                  ['npstartA', 'npoutA', 'npoutA_merge'], ['npstartB', 'npoutB', 'npstartB_merge', 'npoutB_merge']]
+    for pr in pairs:                      # the subsample index columns, complete and incomplete groups, every order
+        for k in range(2, min(len(pr), 3) + 1):
+            for p in itertools.permutations(pr, k):
+                yield list(p)
+        yield list(pr)
     for cl in clusters():
         for k in (2, 3):
             for p in itertools.permutations(cl, k):
@@ -119,6 +128,13 @@ def run(case):
     fields = list(fl) if isinstance(fl, list) else fl
     try:
         c = _ENV.load(zdir, cleaned=cfg['cleaned'], subsamples=subs_arg(cfg['subs']), fields=fields)
+        if isinstance(fl, list):
+            if fields != fl:
+                probs.append(dict(sig='caller-list-modified', msg=f'cfg={cfg}: the fields list passed by the caller was changed from {fl} to {fields}'))
+            # the same list object used for a second load (the usual way to load several catalogs) must give the same table
+            c2 = _ENV.load(zdir, cleaned=cfg['cleaned'], subsamples=subs_arg(cfg['subs']), fields=fields)
+            if c2.halos.colnames != c.halos.colnames or any(not np.array_equal(np.asarray(c2.halos[k]), np.asarray(c.halos[k]), equal_nan=True) for k in c.halos.colnames):
+                probs.append(dict(sig='second-load-with-same-list-differs', msg=f'cfg={cfg} fields={fl}: columns {c.halos.colnames} then {c2.halos.colnames}'))
     except Exception as e:
         tb = traceback.extract_tb(e.__traceback__)
         where = next((f.name for f in reversed(tb) if 'compaso_halo_catalog' in f.filename), '?')
